@@ -35,6 +35,8 @@ ASSUMPTIONS = ["C-level containers in CPython order identity-hashed members only
 CHILD = os.path.join(os.path.dirname(os.path.abspath(__file__)), "c22_child.py")
 SMALL = ["Test.dex", "AnalysisTest.dex", "ExceptionHandling.dex", "FieldsTest.dex", "FillArrays.dex", "InterfaceCls.dex", "StringTests.dex"]
 BIG = ["classes.dex"]
+APK_DEX = [("TC-debug.apk", "classes.dex"), ("Test-debug.apk", "classes.dex"), ("com.politedroid_4.apk", "classes.dex"),
+           ("duplicate.permisssions_9999999.apk", "classes.dex")]
 
 DECL = re.compile(r"^\s*[\w.$\[\]<>]+ [\w$]+;\s*$")
 
@@ -67,12 +69,8 @@ def _targets_of(source):
     """[(class index, n methods)] -- read with the unchanged parser in this (harness) process"""
     core.use_repo()
     from androguard.core.dex import DEX
-    if source["kind"] == "file":
-        with open(source["path"], "rb") as f:
-            raw = f.read()
-    else:
-        from gen import dexasm
-        raw, _ = dexasm.assemble(source["model"])
+    from gen.source import load_raw
+    raw = load_raw(source)
     d = DEX(raw)
     return [(ci, len(list(c.get_methods()))) for ci, c in enumerate(d.get_classes())]
 
@@ -84,10 +82,14 @@ def draw_group(seed):
         from gen import models
         source = {"kind": "gen", "model": models.structured_model(r, ncls=r.randint(1, 3), nmeth=r.randint(3, 8))}
         sid = "gen"
-    elif k < 0.85 or _source_path(BIG[0]) is None:
+    elif k < 0.70:
         name = r.choice(SMALL)
         source = {"kind": "file", "path": _source_path(name)}
         sid = name
+    elif k < 0.85 or _source_path(BIG[0]) is None:
+        apk, member = r.choice(APK_DEX)
+        source = {"kind": "file", "path": os.path.join(core.CORPUS_DIR, "apk", apk), "member": member}
+        sid = apk + "!" + member
     else:
         name = r.choice(BIG)
         source = {"kind": "file", "path": _source_path(name)}
@@ -145,12 +147,8 @@ def diff_class(a, b):
 def _target_name(source, tgt):
     core.use_repo()
     from androguard.core.dex import DEX
-    if source["kind"] == "file":
-        with open(source["path"], "rb") as f:
-            raw = f.read()
-    else:
-        from gen import dexasm
-        raw, _ = dexasm.assemble(source["model"])
+    from gen.source import load_raw
+    raw = load_raw(source)
     d = DEX(raw)
     c = list(d.get_classes())[tgt[1]]
     if tgt[0] == "c":
